@@ -123,6 +123,9 @@ def pit(obs, ens, random=False, cst=0.3, kind="rank", censor=0.):
     else:
         pits = np.array([percentileofscore(ensval, obsval, kind)/100.
                         for ensval, obsval in zip(ens, obs)])
+        # percentileofscore can return 100.00000000000001 (e.g. 22 members
+        # all below the obs): keep pits within [0, 1]
+        pits = np.clip(pits, 0., 1.)
 
     return pits, is_sudo
 
